@@ -194,6 +194,16 @@ def _wrap_scalar_fn(f, x):
     return res
 
 
+def _floor_fn(x):
+    # as numpy.floor on a column: an integer stays an integer, a float stays a float (math.floor alone hands back an int,
+    # and the INTEGER column then divides as integers)
+    return math.floor(x) if isinstance(x, int) else float(math.floor(x))
+
+
+def _ceil_fn(x):
+    return math.ceil(x) if isinstance(x, int) else float(math.ceil(x))
+
+
 def _wrap_scalar_fn2(f, x, y):
     if _check_scalar_bad(x) or _check_scalar_bad(y):
         return numpy.nan
@@ -340,8 +350,8 @@ class SQLiteModel(data_algebra.db_model.DBModel):
             "asinh": functools.partial(_wrap_scalar_fn, math.asinh),
             "atan": functools.partial(_wrap_scalar_fn, math.atan),
             "atanh": functools.partial(_wrap_scalar_fn, math.atanh),
-            "ceil": functools.partial(_wrap_scalar_fn, math.ceil),
-            "ceiling": functools.partial(_wrap_scalar_fn, math.ceil),
+            "ceil": functools.partial(_wrap_scalar_fn, _ceil_fn),
+            "ceiling": functools.partial(_wrap_scalar_fn, _ceil_fn),
             "cos": functools.partial(_wrap_scalar_fn, math.cos),
             "cosh": functools.partial(_wrap_scalar_fn, math.cosh),
             "degrees": functools.partial(_wrap_scalar_fn, math.degrees),
@@ -351,7 +361,7 @@ class SQLiteModel(data_algebra.db_model.DBModel):
             "expm1": functools.partial(_wrap_scalar_fn, math.expm1),
             "fabs": functools.partial(_wrap_scalar_fn, math.fabs),
             "factorial": functools.partial(_wrap_scalar_fn, math.factorial),
-            "floor": functools.partial(_wrap_scalar_fn, math.floor),
+            "floor": functools.partial(_wrap_scalar_fn, _floor_fn),
             "frexp": functools.partial(_wrap_scalar_fn, math.frexp),
             "gamma": functools.partial(_wrap_scalar_fn, math.gamma),
             "isfinite": functools.partial(_wrap_scalar_fn, math.isfinite),
